@@ -49,6 +49,33 @@ def _written_names(n, out=None):
     return out
 
 
+def _option_kind(interp, name):
+    """payload kind of `let mut name: Option<..> = None` in execute_instructions, from its type annotation"""
+    fn = interp.prog.fns['execute_instructions']
+    def find(n):
+        if isinstance(n, dict):
+            if n.get('k') == 'let' and isinstance(n.get('pat'), dict) and name in repr(n['pat']) and n.get('ty') is not None:
+                return repr(n['ty'])
+            for v in n.values():
+                r = find(v)
+                if r:
+                    return r
+        elif isinstance(n, (list, tuple)):
+            for v in n:
+                r = find(v)
+                if r:
+                    return r
+        return None
+    ty = find(fn) or ''
+    if 'Pattern' in ty:
+        return 'mpat'
+    if any(t in ty for t in ("'u8'", "'Id'", "'usize'", "'u32'")):
+        return 'int'
+    if "'bool'" in ty:
+        return 'bool'
+    return None
+
+
 def _pushes(n, out=None):
     """[(receiver name, names of the functions called in the pushed expression)] for every `x.push(e)` in a block"""
     out = [] if out is None else out
@@ -111,6 +138,14 @@ class MainLoop:
             cur = interp.deref(env.get(name))
             if isinstance(cur, SV) and cur.kind in ('idl', 'mlist', 'int', 'bool'):
                 env.set_existing(name, ctx.fresh(cur.kind, f'carried_{name}'))
+            elif isinstance(cur, (bool, int)):
+                env.set_existing(name, ctx.fresh('bool' if isinstance(cur, bool) else 'int', f'carried_{name}'))
+            elif cur is None or (isinstance(cur, tuple) and cur and cur[0] == 'Some' and isinstance(cur[1], SV) and cur[1].kind in ('mpat', 'int', 'bool')):
+                # an Option (declared None, or Some(x)): after an arbitrary history it is None or Some(arbitrary)
+                kind = cur[1].kind if cur is not None else _option_kind(interp, name)
+                if kind is None:
+                    raise Unsupported(f'local `{name}` (an Option of unknown payload) is declared before the instruction loop and written inside it')
+                env.set_existing(name, None if ctx.choose(2, f'carried {name}: None / Some') == 0 else ('Some', ctx.fresh(kind, f'carried_{name}')))
             else:
                 raise Unsupported(f'local `{name}` is declared before the instruction loop and written inside it (loop-carried state of a kind the contract cannot havoc: {cur!r})')
         it.rest = SV(IDL.mk('icons', code if not isinstance(code, int) else z3.IntVal(code), rest1.t), 'idl')
